@@ -8,6 +8,6 @@ for d in seeded/*/; do
   checks=$(python3 -c "import json;m=json.load(open('$d/meta.json'));print(' '.join(m.get('detected_by') or [m['property']]))")
   out=$(./seedeval.py $d $id $checks 2>&1 | tail -1)
   echo "$out"
-  case "$out" in *"detected_by=[]"*|*Error*|*error*) fail=$((fail+1));; esac
+  case "$out" in *"confirmed=True detected_by=['"*) ;; *) fail=$((fail+1));; esac
 done
 echo "seeded changes not detected: $fail"
